@@ -4,7 +4,7 @@ from facts import Node, strip_targs, Inconclusive
 from symex import Exec, Lin, Unknown, Ref, Sym, as_lin, Closure
 from contdom import ContDomain, ModVal, ModPlus, Ptr, ElemRef, Bytes, MinVal, Rem, nonneg, feasible_sign, concrete
 
-import re
+import re, common
 _UNK = re.compile(r'\?[^\s]|\$')        # repr of an Unknown (`?tag`) or of an opaque symbol (`$name`) inside a value
 TUS = ['witness/w_containers.cpp']
 TRIVIAL = {'int', 'unsigned char', 'char', 'float', 'double', 'long', 'unsigned int', 'unsigned long'}
@@ -213,6 +213,18 @@ def array_rules(facts, rep):
     rep.floor('Array member functions analysed', nfn, 40)
 
 
+_cls_fields = {}
+
+
+def facts_cls_fields(f):
+    """fields of the class the member function f belongs to (from the function's own translation unit)"""
+    cf = f.d.get('classfull') or f.d.get('class')
+    key = (id(f.tu), cf)
+    if key not in _cls_fields:
+        _cls_fields[key] = next((c['fields'] for c in f.tu.classes if c.get('fullname') == cf), None)
+    return _cls_fields[key]
+
+
 def check_self_assign(rep, f, label, rows, dom, P, is_class):
     rs = row_str(rows)
     g = Ghost(dom, is_class)
@@ -261,10 +273,14 @@ def check_array_path(rep, f, label, rows, dom, P, is_class, base, tc=None, copy_
         return
     g = Ghost(dom, is_class)
     ctor = bool(f.d.get('ctor'))
+    # a capacity member kept beside the size (a cached allocation size): the entry block holds that many slots, and so does every
+    # other array's block hold its own capacity
+    has_cap = any(x['name'] == 'm_capacity' for x in (facts_cls_fields(f) or []))
     if not ctor:
-        g.live['data0'] = Lin.sym('S'); g.alloc['data0'] = None
+        g.live['data0'] = Lin.sym('S'); g.alloc['data0'] = Lin.sym('C') if has_cap else None
     for nm in ('src', 'rhs', 'other'):
         g.live[f'{nm}.data0'] = Lin.sym(f'{nm}.S')
+        if has_cap: g.alloc[f'{nm}.data0'] = Lin.sym(f'{nm}.C')
     adopted = False
     memcpy_class = None
     viol = []
@@ -308,6 +324,8 @@ def check_array_path(rep, f, label, rows, dom, P, is_class, base, tc=None, copy_
                     if is_class and (e_ is False or w_ is not None):
                         viol.append(('AR.2', node, f'constructs elements [{lo}, {hi}) but {g.live[b]} elements are alive' + (f' (e.g. {", ".join(f"{k}={v}" for k, v in sorted(w_.items()))})' if w_ else '') + ': ' + ('elements are constructed over live ones' if (g.le(lo, g.live[b]) is not False) else 'a gap of raw storage is left inside the array')))
                     g.live[b] = hi
+                if has_cap and g.alloc.get(b) is not None and g.le(hi, g.alloc[b]) is False:
+                    viol.append(('AR.2', node, f'constructs elements [{lo}, {hi}) in a block of {g.alloc[b]} slot(s): the write runs past the storage'))
                 if src and src[0] == 'raw' and (src[2] != lo or src[3] != hi):
                     viol.append(('AR.1', node, f'copies source elements [{src[2]}, {src[3]}) into destination [{lo}, {hi}): source and destination index differ'))
             elif rk == 'destroy':
@@ -360,30 +378,26 @@ def check_array_path(rep, f, label, rows, dom, P, is_class, base, tc=None, copy_
             if e is not True:
                 viol.append(('AR.2' if not ctor else 'AR.1', None, f'at return m_size is {size} but {g.live[b]} element(s) are alive in the array ({rs}): ' +
                              ('the surplus elements are never destroyed' if g.le(size, g.live[b]) else 'size() promises elements that were never constructed')))
-        if ctor and g.alloc.get(b) is not None:
+        if ctor and g.alloc.get(b) is not None and has_cap:
+            if g.le(size, g.alloc[b]) is False: viol.append(('AR.1', None, f'the constructor reports size {size} on a block of {g.alloc[b]} slot(s)'))
+        elif ctor and g.alloc.get(b) is not None:
             e = g.eq(g.alloc[b], size)
             if e is not True: viol.append(('AR.1', None, f'the constructor allocates {g.alloc[b]} element(s) but reports size {size}'))
         if ctor and f.d.get('copy') and b.endswith('data0'):
             viol.append(('AR.3', None, 'the copy constructor stores the source\'s pointer (shallow copy)'))
         if b in g.freed and b != 'null':
             viol.append(('AR.2', None, f'at return m_array still points to the freed block {b} with m_size {size}'))
-        if not ctor and b != 'data0' and 'data0' not in g.freed:
-            # the block *this owned on entry: kept, released (free / realloc), or handed to another array (swap / exchange with the parameter)
-            handed = False
-            for prm in f.d.get('params') or []:
-                if 'Array<' in (prm.get('ctype') or ''):
-                    oa = field(P, prm['name'], 'm_array', dom)
-                    if isinstance(oa, Ptr) and oa.base == 'data0': handed = True
-            # ... or to a temporary / local array (copy-and-swap: the temporary's destructor releases it)
-            for loc_, v_ in P.store.items():
-                if isinstance(v_, Ptr) and v_.base == 'data0' and not (loc_[0] == 'f' and loc_[1] == ('this', 'm_array')): handed = True
-            if not handed and not (isinstance(P.ret, Ptr) and P.ret.base == 'data0'):
-                try: ms = list(size_models(rows, dom, extra={'S'}))
-                except LookupError: ms = []
-                wit = next((m_ for m_ in ms if m_.get('S', 0) > 0), None)
-                if wit is not None:
-                    viol.append(('AR.2', None, f'm_array is given another block ({b}) while the block *this owned on entry is neither released nor handed to another array ({rs}; e.g. an array of {wit.get("S")} element(s)): '
-                                 'the storage leaks' + (' and the elements in it are never destroyed' if is_class else '')))
+        if has_cap and b != 'null' and g.alloc.get(b) is not None:
+            cap1 = field(P, 'this', 'm_capacity', dom)
+            # only an over-estimate is harmful (an under-estimate costs a realloc): is there a state in which the cached capacity exceeds the block?
+            if isinstance(cap1, (Lin, int)) and g.lin(g.alloc[b]) is not None:
+                le_ = g.le(cap1, g.alloc[b])
+                over = le_ is False
+                if le_ is None:
+                    w_ = g.witness_ne(rows, cap1, g.alloc[b], also_pos=as_lin(cap1) - g.lin(g.alloc[b]))
+                    over = w_ is not None
+                if over:
+                    viol.append(('AR.2', None, f'at return m_capacity is {cap1} but m_array points to a block of {g.alloc[b]} slot(s) ({rs}): the cached capacity can exceed the real storage, and the next resize() that stays below it writes past the block'))
     fuzzy = None
     if dom.imprecise: fuzzy = f'{dom.imprecise[0][0]} at {dom.imprecise[0][1]} is not in a form the range summariser handles'
     for r, node, why in viol:
@@ -392,7 +406,13 @@ def check_array_path(rep, f, label, rows, dom, P, is_class, base, tc=None, copy_
         else: rep.violation(r, f'{label} {rs}', node.shortloc() if node is not None else site, why, key=f'{r}|{strip_targs(f.qname)}|{why[:50]}', fn=f.name)
     if P.end == 'throw': return
     if not viol:
-        rep.ok('AR.2' if not ctor else 'AR.1', f'{label} {rs}: live elements == m_size == {size}; allocation / copy counts agree', site)
+        xf = common.extra_field_fork(P, 'tulz::Array', ('m_array', 'm_size'))
+        if xf is not None:
+            # the path was chosen by a test of a member the block model knows nothing about (a cached capacity): whether the storage is
+            # large enough on it is not followed - neither proved nor refuted
+            rep.inconclusive('AR.2', f'{label} {rs}', xf.shortloc(), f'the path depends on `{(xf.text() or "")[:50]}`, a test of a member outside the block model: not followed')
+        else:
+            rep.ok('AR.2' if not ctor else 'AR.1', f'{label} {rs}: live elements == m_size == {size}; allocation / copy counts agree', site)
     if f.d.get('move') or f.d.get('moveassign') or base == 'swap':
         # however it is written (swap, std::exchange, assignments): *this ends with the source's entry state, the source with a
         # consistent one (the former state of *this, or the empty array)
